@@ -9,9 +9,17 @@ Stream k (harness c12kw.go): queries over a real boltz store whose atoms use eve
 (in, between, contains, icontains and their not-forms, true/false/null, anyOf/allOf/count/isEmpty, from..where,
 sort by/asc/desc/skip/limit/none) re-spelled in letter case and in the white space at every place the grammar has
 WS+ / WS* / the single WS of `not in` - Store.QueryIds of the re-spelling vs. the canonical spelling; the model
-(Lang/WordOps.v: lex_full + norm, op_negated) says the two texts are the same token stream up to spelling."""
+(Lang/WordOps.v: lex_full + norm, op_negated) says the two texts are the same token stream up to spelling.
+Streams d / l / n (harness c12w3.go): d = skeletons whose atoms REPEAT (labellings of the exhaustive skeletons with
+repeating names; connectives whose two operands are groupings of one and the same clause sequence); l = LONG filters
+(up to thousands of leaves / tens of thousands of tokens) and their white-space / redundant-parenthesis re-spellings;
+n = real comparisons on fields of a store that are nil / unset on some rows: a skeleton must select exactly the rows
+its surface semantics gives under the valuation "what the code answers for the atom alone on that row" - `not` is the
+exact complement of its operand (theorems not_selects_complement, selection_is_rowwise, same_reading_different_meaning,
+redundant_parens_many in Properties/C12.v)."""
 import json
 import os
+import re
 
 import vlib
 
@@ -63,6 +71,26 @@ def show_result(r):
     cnt, ids = r.split(":", 1)
     names = [unhex(x).decode("latin-1") for x in ids.split(",")] if ids not in ("", "-") else []
     return "count=%s ids=[%s]" % (cnt, ",".join(names))
+
+
+W_KEYS = {"lw": ("C12:whitespace", "white space where the grammar allows it"),
+          "lp": ("C12:redundant-parens", "redundant parentheses"),
+          "lb": ("C12:respelling", "white space and redundant parentheses"),
+          "w": ("C12:redundant-parens", "one redundant pair of parentheses"),
+          "r": ("C12:respelling", "letter case of and/or/not and white space")}
+
+
+def shorten(t, n=160):
+    return t if len(t) <= n else "%s ... %s [%d characters]" % (t[:n // 2], t[-n // 2:], len(t))
+
+
+def skeleton_tokens(text):
+    """number of lexer tokens of a skeleton over boolean symbols (every white-space character is one token)"""
+    return len(re.findall(r"[A-Za-z_]+|[()]|\s", text))
+
+
+def ntokens(kinds):
+    return 0 if kinds in ("-", "") else kinds.count(",") + 1
 
 
 K_KEYS = {"op": "C12:word-operator-spelling", "kw": "C12:keyword-case", "ws": "C12:whitespace", "mix": "C12:respelling"}
@@ -121,6 +149,8 @@ def main(argv):
     disagreements = []
     evaluations = 0
     kstats = dict(cases=0, with_word_operator=0, with_negated_word_operator=0)
+    nstats = dict(cases=0, with_not=0, rows_where_all_atoms_false=0)
+    lstats = dict(cases=0, max_tokens=0, max_leaves=0)
     for case, i, m in zip(cases, impl, modl):
         cf, fi, fm = case.split(), i.split(), m.split()
         if cf[0] == "K":
@@ -154,6 +184,53 @@ def main(argv):
             if ikinds != mkinds or ierrs != mdrops:
                 disagreements.append((case, i, m, "token kinds of the re-spelled query (Lang/LexerFull.v)"))
             continue
+        if cf[0] == "N":
+            # ---- stream n: a skeleton over real comparisons, evaluated on the rows of a store (some fields nil);
+            # oracle: the rows selected = the surface semantics under "what the code answers for the atom alone"
+            stream, store, pre = cf[1], cf[2], cf[5]
+            query, skel = unhex(cf[3]).decode("latin-1"), unhex(cf[4]).decode("latin-1")
+            names = cf[6].split(",")
+            texts = [unhex(x).decode("latin-1") for x in cf[7].split(",")]
+            abits = cf[8].split(",")
+            ibits, rowids = fi[1], [unhex(x).decode("latin-1") for x in fi[2].split(",")]
+            mbits, sbits = fm[1], fm[2]
+            evaluations += len(sbits)
+            distinct.add(case)
+            nstats["cases"] += 1
+            has_not, mixed, _ = features(pre)
+            nil_false = False
+            rep = dict(case=case, impl=i, model=m, store=store, query=query, skeleton=skel,
+                       atoms=dict(zip(names, texts)), rows=rowids,
+                       atom_values_per_row_as_the_code_answers_for_the_atom_alone=dict(zip(texts, abits)),
+                       rows_selected_impl=ibits, rows_selected_expected=sbits,
+                       note="dataset: harness c12w3.go c12nRows (n0: no field set, n1: explicit nils, h1/h2: partly set); "
+                            "bit r = row r selected")
+            if ibits in ("E", "P"):
+                c.violation("C12:valid-query-rejected" if ibits == "E" else "C12:panic",
+                            "valid query %r (store %s) %s" % (query, store, "is rejected" if ibits == "E" else "panics"), rep)
+                continue
+            if ibits != sbits:
+                r = next(k for k in range(len(sbits)) if ibits[k] != sbits[k])
+                vals = ", ".join("%r is %s" % (t, "true" if b[r] == "1" else "false") for t, b in zip(texts, abits))
+                if has_not and not mixed:
+                    key = "C12:not-complement"
+                    why = "`not` is not the complement of its operand as the code evaluates it on that row"
+                elif mixed:
+                    key, why = "C12:and-over-or", "`and` does not bind tighter than `or`"
+                else:
+                    key, why = "C12:grouping", "the connectives do not combine the values of their operands"
+                c.violation(key, "query %r on row %s of store %s (where %s) is %s, expected %s: %s; rows selected %s, expected %s" % (
+                    query, rowids[r], store, vals, "true" if ibits[r] == "1" else "false", "true" if sbits[r] == "1" else "false",
+                    why, ibits, sbits), dict(rep, first_differing_row=rowids[r]))
+                continue
+            if has_not:
+                nstats["with_not"] += 1
+                # a `not` whose operand is false on a row although the plain reading would make it true there:
+                # counted when some atom is false on a row where every atom is false (nil rows)
+                nstats["rows_where_all_atoms_false"] += sum(1 for k in range(len(sbits)) if all(b[k] == "0" for b in abits))
+            if mbits != ibits:
+                disagreements.append((case, i, m, "rows selected (stream n)"))
+            continue
         kind, stream, mode, hfilter, pre = cf[0], cf[1], cf[2], cf[3], cf[4]
         filt = unhex(hfilter)
         ikinds, ierrs, itt = fi[1], fi[2], fi[3]
@@ -166,21 +243,43 @@ def main(argv):
                    truth_table_impl=itt, truth_table_expected=stt, truth_table_model=mtt,
                    truth_table_of_generated_parser_as_shipped=ltt,
                    note="truth table: position i = assignment with atom j true iff bit j of i; atoms " + cf[5])
+        if stream in ("lw", "lp", "lb"):
+            lstats["cases"] += 1
+            lstats["max_tokens"] = max(lstats["max_tokens"], ntokens(mkinds))
+            lstats["max_leaves"] = max(lstats["max_leaves"], pre.count("<"))
         # ---- the property's own oracle: the real filter must denote the surface semantics
         if itt != stt:
+            if kind == "W" and itt in ("E", "P") and fi[4] == stt:
+                # the base spelling is accepted and right, the re-spelling of the same skeleton is not accepted
+                base = unhex(cf[6]).decode("latin-1")
+                key, what_differs = W_KEYS.get(stream, ("C12:respelling", "case / white space / redundant parentheses"))
+                toks = " (%d tokens vs %d tokens)" % (skeleton_tokens(base), skeleton_tokens(filt.decode("latin-1"))) if mode == "sym" else ""
+                c.violation(key, "filter %r is accepted (truth table %s, as expected) but its re-spelling %r, which differs only in %s%s, %s" % (
+                    shorten(base), shorten(fi[4], 40), shorten(filt.decode("latin-1")), what_differs, toks,
+                    "is rejected" if itt == "E" else "panics"),
+                    dict(rep, truth_table_base=fi[4], base_filter=base, differs_only_in=what_differs))
+                continue
+            if kind == "S" and len(fi) > 4 and fi[4] == stt and itt not in ("E", "P"):
+                # streams d: the same skeleton written over distinct atoms is right under the same values
+                c.violation("C12:repeated-atoms",
+                            "filter %r (%s atoms): truth table %s, expected %s; the same skeleton written over distinct atoms evaluates as expected "
+                            "under the same values (%s) - the result is wrong only because atom texts repeat (operands that read alike are not "
+                            "combined as written)" % (shorten(filt.decode("latin-1")), mode, itt, stt, fi[4]),
+                            dict(rep, truth_table_of_the_same_skeleton_over_distinct_atoms_under_the_same_values=fi[4]))
+                continue
             if itt in ("E", "P"):
                 key = "C12:valid-skeleton-rejected" if itt == "E" else "C12:panic"
-                what = "valid filter %r (%s) %s" % (filt.decode("latin-1"), mode, "is rejected" if itt == "E" else "panics")
+                what = "valid filter %r (%s) %s" % (shorten(filt.decode("latin-1")), mode, "is rejected" if itt == "E" else "panics")
             elif mixed:
                 key = "C12:and-over-or"
                 what = "filter %r (%s atoms): `and` does not bind tighter than `or`: truth table %s, expected %s" % (
-                    filt.decode("latin-1"), mode, itt, stt)
+                    shorten(filt.decode("latin-1")), mode, itt, stt)
             elif has_not:
                 key = "C12:not-grouping"
-                what = "filter %r (%s atoms): truth table %s, expected %s" % (filt.decode("latin-1"), mode, itt, stt)
+                what = "filter %r (%s atoms): truth table %s, expected %s" % (shorten(filt.decode("latin-1")), mode, itt, stt)
             else:
                 key = "C12:grouping"
-                what = "filter %r (%s atoms): truth table %s, expected %s" % (filt.decode("latin-1"), mode, itt, stt)
+                what = "filter %r (%s atoms): truth table %s, expected %s" % (shorten(filt.decode("latin-1")), mode, itt, stt)
             c.violation(key, what, rep)
             continue
         if kind == "W":
@@ -207,6 +306,8 @@ def main(argv):
     c.cov["evaluations"] = evaluations
     c.cov["cases"] = len(cases)
     c.cov["stream_k"] = kstats
+    c.cov["stream_n"] = nstats
+    c.cov["stream_l"] = lstats
     c.cov["distinct_nontrivial"] = len(distinct)
     c.cov["disagreements_checked"] = len(disagreements)
     try:
@@ -222,6 +323,14 @@ def main(argv):
                      "k1 = ONE spelling site (a keyword's letter case, or the white space at one WS+/WS*/single-WS place incl. inside not in/between/contains/icontains) "
                      "changed at a time - every site of every atom, every variant; k2 = all sites in one uniform style; k3 = random skeletons + sort/skip/limit, all sites random; "
                      "oracle: same QueryIds result as the canonical spelling. "
+                     "stream d: skeletons with REPEATING atoms - d1 = the exhaustive skeletons relabelled with repeating names (quick: one labelling each, thorough: all on <= 4 leaves), "
+                     "d2 = `X op Y` / `(X) op (Y)` / mixed for ALL pairs X, Y of groupings of one clause sequence (2-4 clauses, <= 3 names, every and/or sequence, 0-2 nots; "
+                     "exhaustive for 3 clauses without not, sampled above), plain and inside a context; sym + slices in cmp/const mode. "
+                     "stream l: long filters (12..1200 leaves, thorough ..5000; or-chain, and-chain, alternating, groups, and-runs, random nesting) compact vs "
+                     "one-clause-per-line / doubled blanks / tabs / random white space / every atom in parentheses / whole filter in 1-3 pairs / both. "
+                     "stream n: skeletons over real comparisons (71 atoms: = != < <= > >= contains icontains in between null, their not-forms, anyOf/allOf/count/isEmpty; "
+                     "string, int, float, datetime, bool, set) on a store whose rows leave fields unset / explicitly nil: n1 = every skeleton over one atom (<= 2 parens, <= 3 nots) x every atom, "
+                     "n2 = every two-leaf skeleton with a not, n3 = random over three atoms; oracle per row: surface semantics under the code's own value of each atom on that row. "
                      "evaluations = truth-table entries compared; non-trivial = has not/parentheses/mixed connectives/>1 atom/re-spelling; distinct by case text"
                      % (5 if c.thorough else 4))
     idx = sorted(set((0, min(3, len(cases) - 1), len(cases) // 2, len(cases) - 1)))
